@@ -195,4 +195,60 @@ def mixinP (ins : List TxIn) : Out Nat :=
     | some (.toKey _ o _) => if o.length = 0 then .err else .ok (o.length - 1)   -- checked_sub(1)
     | some _ => .ok 0
 
+/-! ## `RctSigPrunable::consensus_decode` (ringct.rs:712-807) and `Transaction::consensus_decode`
+(transaction.rs:995-1077): `1 + inputs` on a `usize`, `&prefix.inputs[0]`
+
+The decoders of Model/Tx.lean compute over `Nat`, where `1 + inputs` is total. In the Rust, `inputs` is a `usize`
+PARAMETER of the public function `RctSigPrunable::consensus_decode`; the sum is evaluated inside
+`for _ in 0..mg_elements { for _ in 0..=mixin {` — for the types that are neither CLSAG-like (5, 6) nor simple (2, 3, 4)
+`mg_elements = 1` and `0..=mixin` is never empty, so it is evaluated (before any byte of the section is read) exactly
+for those types. `Transaction::consensus_decode` calls it with `inputs = prefix.inputs.len()`, the length of a vector
+that passed the allocation cap. -/
+
+/-- `Option` result as an outcome without panic -/
+def Out.ofOption {α} : Option α → Out α
+  | some x => .ok x
+  | none => .err
+
+/-- section 2 (ring signatures) with `1 + inputs` explicit -/
+def sigsDecP (ty inputs mixin : Nat) (b : Bytes) : Out ((List MG × List Clsag) × Bytes) :=
+  if ty = 5 ∨ ty = 6 then .ofOption (sigsDec ty inputs mixin b)
+  else if ty = 2 ∨ ty = 3 ∨ ty = 4 then .ofOption (sigsDec ty inputs mixin b)
+  else
+    (addU 64 "RctSigPrunable::consensus_decode: 1 + inputs" 1 inputs).bind fun cols =>
+    .ofOption ((bind (rep (mgDec cols mixin) 1) fun ms => pure' (ms, ([] : List Clsag))) b)
+
+/-- `RctSigPrunable::consensus_decode(r, rct_type, inputs, outputs, mixin)`: every argument is the caller's -/
+def prunableP (ty inputs outputs mixin : Nat) (b : Bytes) : Out (Option Prunable × Bytes) :=
+  if ty = 0 then .ok (none, b) else
+  (Out.ofOption (proofsDec ty outputs b)).bind fun (pf, r1) =>
+  (sigsDecP ty inputs mixin r1).bind fun (sg, r2) =>
+  (Out.ofOption (pseudoDec ty inputs r2)).bind fun (po, r3) =>
+  .ok (some ⟨pf.1, pf.2.1, pf.2.2, sg.1, sg.2, po⟩, r3)
+
+/-- the expression `match &prefix.inputs[0] { ToKey{key_offsets,..} => key_offsets.len().checked_sub(1) …, _ => 0 }`
+ALONE, without the guards that precede it in the source: it panics on an empty input list -/
+def mixinAtP (ins : List TxIn) : Out Nat :=
+  match (ins[0]? : Option TxIn) with
+  | none => .panic "Transaction::consensus_decode: &prefix.inputs[0]"
+  | some (.toKey _ o _) => if o.length = 0 then .err else .ok (o.length - 1)   -- checked_sub(1)
+  | some _ => .ok 0
+
+/-- `Transaction::consensus_decode` with its own control flow written out (the `inputs == 0` early return, the
+`if inputs > 0 { … } else { 0 }` around the index expression) and the panic sites of what it calls -/
+def txP (b : Bytes) : Out (Tx × Bytes) :=
+  (Out.ofOption (prefix' b)).bind fun (p, r0) =>
+  let inputs := p.ins.length
+  let outputs := p.outs.length
+  if p.version = 1 then
+    let rings := p.ins.filterMap fun i => match i with | .toKey _ o _ => some o.length | _ => none
+    .ofOption ((bind (tx.sigs rings) fun s => pure' (⟨p, s, none, none⟩ : Tx)) r0)
+  else if inputs = 0 then .ok (⟨p, [], none, none⟩, r0)
+  else
+    (Out.ofOption (base inputs outputs r0)).bind fun (bs, r1) =>
+    if bs.ty ≠ 0 then
+      (if inputs > 0 then mixinAtP p.ins else .ok 0).bind fun mixin =>
+      (prunableP bs.ty inputs outputs mixin r1).bind fun (pr, r2) => .ok (⟨p, [], some bs, pr⟩, r2)
+    else .ok (⟨p, [], some bs, none⟩, r1)
+
 end Monero.Panics
